@@ -52,7 +52,7 @@ func genPageParts(t *rapid.T) pageURLParts {
 	p.host = rapid.SampledFrom([]string{"example.com", "www.site.org", "sub.news.test:8080"}).Draw(t, "host")
 	n := rapid.IntRange(0, 3).Draw(t, "ndirs")
 	for i := 0; i < n; i++ {
-		p.dirs = append(p.dirs, rapid.SampledFrom([]string{"a", "blog", "2021", "sec-x", "d_1"}).Draw(t, "dir"))
+		p.dirs = append(p.dirs, rapid.SampledFrom([]string{"a", "blog", "2021", "sec-x", "d_1", "AC%2FDC"}).Draw(t, "dir"))
 	}
 	p.file = rapid.SampledFrom([]string{"", "page.html", "story", "index.php"}).Draw(t, "file")
 	p.query = rapid.SampledFrom([]string{"", "", "?id=7", "?a=1&b=2"}).Draw(t, "query")
